@@ -36,7 +36,9 @@ def memoryGasCost (memLen lastGasCost newMemSize : Nat) : Option (Nat × Nat) :=
   else if newMemSize > 0x1FFFFFFFE0 then none
   else
     let words := toWordSize newMemSize
-    if words * 32 > memLen then some (memFee words - lastGasCost, memFee words)
+    -- `fee := newTotalFee - mem.lastGasCost` is a uint64 subtraction (it cannot wrap while `lastGasCost` is the fee of the
+    -- current size, which `Resize` and this function maintain together; the model does not assume that)
+    if words * 32 > memLen then some ((memFee words % U64 + U64 - lastGasCost % U64) % U64, memFee words)
     else some (0, lastGasCost)
 
 /-- `memoryCopierGas(2)` for MCOPY: expansion fee plus 3 per word copied, with the overflow checks -/
